@@ -1052,7 +1052,7 @@ pub fn check(ctx: &mut Ctx) -> Option<Meta> {
                 Plan { name: "seq-len", cfg: cfg_c11(t, true), eval: eval_c11_seq, quick: 300_000, thorough_factor: 25 },
                 Plan { name: "sched-len-racing", cfg: cfg_c11(t, false), eval: eval_c11, quick: 40_000, thorough_factor: 25 },
                 // nested iterators: inner.values().into_con_iter() while elements are also pulled from `inner` directly
-                Plan { name: "nested-len", cfg: crate::nested::cfg(t), eval: crate::nested::eval_c11_nested, quick: 10_000, thorough_factor: 25 },
+                Plan { name: "nested-len", cfg: crate::nested::cfg(t), eval: crate::nested::eval_c11_nested, quick: 60_000, thorough_factor: 25 },
                 // the end reached because the wrapped iterator panicked: lengths must still be what later pulls deliver
                 Plan { name: "seq-len-after-panic", cfg: { let mut c = cfg_c11(t, true); c.kinds = WRAPPED.to_vec(); c.fault_sites = vec![FaultSite::ProbeNext]; c.w_skip = 0; c.end_with_drain = true; c.huge_chunks = false; c }, eval: eval_c11_seq, quick: 40_000, thorough_factor: 25 },
             ],
